@@ -73,9 +73,31 @@ def gen(rng, knobs):
                                  created_at=T0 - 1))
         rng.shuffle(writes)
         h.ops.append(["csub", [{"kinds": [9999]}], writes])
+    step_cap = None
+    if rng.random() < 0.05:
+        step_cap = 600000
+        # wide shapes: conditions listing hundreds of values, events carrying hundreds of tags, results of a few
+        # hundred rows - all far below the effective limit
+        n = rng.choice([70, 130, 260])
+        wide = [h.regular(author=i % 3, kind=rng.choice([1, 7]), tags=[["t", "w%d" % i]], created_at=T0 - 20000 + i)
+                for i in range(n)]
+        many_tags = h.regular(author=0, kind=1, tags=[["t", "m%d" % i] for i in range(rng.choice([40, 130, 300]))],
+                              created_at=T0 - 30000)
+        for e in wide + [many_tags]:
+            h.add(e)
+        pick = rng.sample(wide, min(len(wide), rng.choice([64, 100, 128, 200, 256, 500])))
+        h.ops.append(["sub", [{"ids": [e["id"] for e in pick]}]])
+        h.ops.append(["sub", [{"#t": [e["tags"][0][1] for e in pick]}]])
+        h.ops.append(["sub", [{"#t": [many_tags["tags"][-1][1]]}]])
+        h.ops.append(["sub", [{"#t": [many_tags["tags"][len(many_tags["tags"]) // 2][1], "nope"]}]])
+        h.ops.append(["sub", [{"kinds": [1, 7], "since": T0 - 20001, "until": T0 - 20000 + n}]])
+        h.ops.append(["query", [{"authors": [h.pub(0), h.pub(1), h.pub(2)], "kinds": [1, 7], "since": T0 - 20001}]])
     for _ in range(rng.choice([0, 0, 1])):
         h.ops.insert(rng.randint(0, len(h.ops)), ["restart"])          # the relay restarts somewhere in the history
-    return {"backend": backend, "ops": h.ops}
+    out = {"backend": backend, "ops": h.ops}
+    if step_cap:
+        out["step_cap"] = step_cap
+    return out
 
 
 def tight(rng, evs, f):
@@ -98,6 +120,20 @@ def check(obs, backend, max_limit):
     nontrivial = False
     for o in obs:
         kind = o["op"][0]
+        if kind == "add" and backend == "sql" and "post_full" in o and o.get("res", [None])[0] == "ok":
+            # every single-letter tag with a string value is a way to find the event: it has its row
+            E = o["op"][1]
+            ev_now, rows = o["post_full"]
+            if E["id"] in ev_now:
+                have = {(n, v) for i, n, v in rows if i == E["id"]}
+                want = {(t[0], t[1]) for t in E["tags"] if len(t) >= 2 and isinstance(t[0], str) and isinstance(t[1], str)
+                        and len(t[0]) == 1 and t[0].isascii() and t[0].isalpha()}
+                lost = sorted(want - have)
+                if lost:
+                    viol.append({"cls": "missing", "sig": "missing|sql|tag-row|%s" % ("many-tags" if len(want) > 50 else "few-tags"),
+                                 "detail": {"event": E["id"][:8], "indexable_tags": len(want), "rows": len(have),
+                                            "lost": lost[:3]}})
+            continue
         if kind == "csub" and "post" in o and o["res"][0] == "ok":
             # the stored query overlapped with writes: what was stored before it started and stayed stored in
             # every durable state until it ended is owed, exactly once (no limit in these filters)
@@ -173,7 +209,7 @@ def check(obs, backend, max_limit):
 
 def run(case, sim):
     backend = case["backend"]
-    w = store.StoreWorld(sim, backend, track_states=True)
+    w = store.StoreWorld(sim, backend, track_states=True, full_gc=(backend == "sql"))
     cur = {}
 
     def on_op(o):
